@@ -12,6 +12,7 @@ CONSTANTS
   Dev_CloseNotChecked = FALSE
   Dev_InnermostOnly = FALSE
   Dev_PartialEager = FALSE
+  Dev_CrlfBlankIndented = FALSE
 INVARIANT Refines
 INVARIANT BalanceAgrees
 INVARIANT Emit2
